@@ -164,7 +164,7 @@ impl Recv {
         matches!(self.state, RecvState::Recv { .. })
     }
 
-    fn final_offset(&self) -> Option<u64> {
+    pub(super) fn final_offset(&self) -> Option<u64> {
         match self.state {
             RecvState::Recv { size } => size,
             RecvState::ResetRecvd { size, .. } => Some(size),
